@@ -269,3 +269,10 @@ package api
 //@   requires [consumers-are-registered-and-the-catalog-is-listed-before-held-events-are-released] subsColl >= 1 && subsPart >= 1 && listedColl >= 1 && listedPart >= 1
 //@   ensures startedWatch == old(startedWatch) + 1
 //@   modifies startedWatch
+
+// ---- C01: a pack travels in an envelope that names its stream --------------------------------------------------
+//@ func GetReplicateMsg
+//@   props C01 C02
+//@   ensures [the-envelope-names-collection-channel-task-and-carries-the-pack] result != nil && freshRef(result) && result.CollectionName == collectionName && result.CollectionID == collectionID && result.PChannelName == pchannelName && result.TaskID == taskID && result.MsgPack == msgPack
+//@   modifies fresh(ReplicateMsg.*)
+//@   panics never
